@@ -117,7 +117,7 @@ func runOnce(job *Job, ch vs.Chooser, trace bool) (*vs.Result, *Outcome) {
 		out, res = c14CtlRun(job.C14Ctl, cc, trace)
 	case "C09conc":
 		out, res = c09Run(job.C09, cc, trace)
-	case "C01conc", "C06conc", "C12conc", "C17conc", "C16conc":
+	case "C01conc", "C06conc", "C12conc", "C17conc", "C16conc", "C08conc":
 		out, res = c01Run(job.C01, cc, trace)
 	default:
 		return &vs.Result{Fatal: "unknown harness " + job.Harness}, nil
